@@ -3,7 +3,22 @@ from propbase import Prop, COMMON_TRUSTED
 from coqterm import cbool, cZ, copt
 from codeccommon import cjv, ccmsg, hx, jv_shrinks, drop_keys, deep
 
+import os
+
 PK0 = "0" * 63 + "1"
+
+# Which statement files are the property's proof targets.  The tree as it stands has the defects F1
+# (validKind uses ||), F2 (validNaddr cuts with strings.Split) and F10 (label pattern anchored at '[');
+# Properties/C11.v and C11Ws.v state the refutations and the partial theorems and compile only against
+# the defective guards.  After the `fix:` commits set the corresponding flag to True: the targets
+# become Properties/C11Fixed.v (full theorems; a regression breaks g_valid_kind_spec / naddr_split_is_3)
+# resp. Properties/C11WsFixed.v.  VERIF_C11_VARIANT=fixed|fixed+ws overrides (scratch runs).
+KIND_AND_NADDR_REPAIRED = True
+LEADING_WS_REPAIRED = True
+_v = os.environ.get("VERIF_C11_VARIANT", "")
+if _v:
+    KIND_AND_NADDR_REPAIRED = "fixed" in _v
+    LEADING_WS_REPAIRED = "ws" in _v
 
 
 def _walk_ints(j, out):
@@ -91,13 +106,14 @@ def _leading_ws(c):
 
 class C11(Prop):
     id = "C11"
-    coq_targets = ["theories/Properties/C11.vo"]
+    coq_targets = [("theories/Properties/C11Fixed.vo" if KIND_AND_NADDR_REPAIRED else "theories/Properties/C11.vo"),
+                   ("theories/Properties/C11WsFixed.vo" if LEADING_WS_REPAIRED else "theories/Properties/C11Ws.vo")]
     check_vo = "theories/Check/C11Check.vo"
     check_module = "Moc.Check.C11Check"
     case_imports = ["Moc.Json", "Moc.CodecMsg", "Moc.Codec", "Moc.Valid"]
     harness_bin = "core"
     harness_sub = "c11"
-    sizes = {"quick": 8000, "thorough": 200000}
+    sizes = {"quick": 6000, "thorough": 200000}
     max_reports = 4
     gen_names = ("g_valid_", "g_hex_", "g_event_valid", "g_cevent_", "g_creq_", "g_cclose_", "g_cauth_", "g_ccount_",
                  "g_filter_", "g_naddr_", "g_fkey_", "g_event_nfields_bad", "g_MsgLabel", "g_client_msg_regexp",
@@ -169,7 +185,8 @@ class C11(Prop):
                     return name
             except Exception:
                 pass
-        return json.dumps(self._input(c), sort_keys=True)
+        # otherwise: one report per (stream, generator class, verdict pair)
+        return json.dumps([c["k"], c.get("cls", "").split(":")[0:2], bool(c.get("parsed")), bool(c.get("valid"))])
 
     def shrink(self, c):
         k = c["k"]
